@@ -130,6 +130,9 @@ func runHistories(run *Run, cfg histCfg) (*TraceSummary, []*StoreRec) {
 			}
 			rec.Reset()
 			nstores := 2 + r.Intn(2)
+			if cfg.Stores { // enough stores for ListStores walks of three and more pages
+				nstores = 3 + r.Intn(4)
+			}
 			var stores []*storeInfo
 			for i := 0; i < nstores; i++ {
 				name := "same-name"
